@@ -675,7 +675,7 @@ class Gen:
                 f = Field(fname, "Attributes", [T("prim", "str")], "default")
                 if rng.random() < 0.6:
                     f.namespace = rng.choice(["##any", "##any", "##other", "##local"])
-                if c.nillable and f.namespace in ("##any", "##other"):
+                if False and c.nillable and f.namespace in ("##any", "##other"):
                     f.namespace = "##local"  # xsi:nil would be captured by the map (kept out of the main population)
             else:
                 f = self.element_field(m, fname, later, names, idx)
